@@ -196,6 +196,15 @@ func registerVF(P *Program) {
 		in.vfPar(caller, args[0], args[1])
 		return nil
 	})
+	r("Permute", func(in *Interp, args []Value) Value {
+		on := args[0].(*Term).BoolVal()
+		if in.params["permute_mode"] == "all" {
+			in.permute = on
+		} else {
+			in.reverse = on // default: the reversed order of every map (all maps at once)
+		}
+		return nil
+	})
 	r("Yield", func(in *Interp, args []Value) Value { in.vfYield(); return nil })
 	r("Note", func(in *Interp, args []Value) Value { in.res.note(argStr(args[0])); return nil })
 	r("Now", func(in *Interp, args []Value) Value { return TimeV{in.now()} })
@@ -242,6 +251,13 @@ func (in *Interp) assert(label string, c *Term) {
 		ar.Verdict = "proved"
 	case Sat:
 		ar.Verdict = "failed"
+		// prefer a counterexample whose strings are short printable ASCII (replays go through encoding/json, which does
+		// not preserve invalid UTF-8); this only selects among models, it never changes a verdict
+		if label == "witness" || strings.HasPrefix(label, "witness:") {
+			// reachability twins are never replayed: any model will do
+		} else if r2, m2 := in.sol.Check(append(in.niceStrings(), in.ts.Not(c)), true); r2 == Sat {
+			m = m2
+		}
 		ar.Model = m
 		ar.Choices = map[string]int{}
 		for k, v := range in.choices {
@@ -252,6 +268,27 @@ func (in *Interp) assert(label string, c *Term) {
 		in.res.Inconclusive = true
 	}
 	in.res.Asserts = append(in.res.Asserts, ar)
+}
+
+// niceStrings: constraints that make every (non-abstract) string symbol short printable ASCII.
+func (in *Interp) niceStrings() []*Term {
+	ts := in.ts
+	var out []*Term
+	for _, name := range ts.order {
+		t := ts.syms[name]
+		if t.sort.K != SStr || ts.big[name] {
+			continue
+		}
+		const maxLen = 10
+		out = append(out, ts.ILe(ts.SLen(t), ts.Int(maxLen)))
+		for i := 0; i < maxLen; i++ {
+			ch := ts.SAt(t, ts.Int(int64(i)))
+			inside := ts.ILt(ts.Int(int64(i)), ts.SLen(t))
+			printable := ts.And(ts.BvUle(ts.BV(8, 0x30), ch), ts.BvUle(ch, ts.BV(8, 0x7a)), ts.Not(ts.Eq(ch, ts.BV(8, 0x5c))))
+			out = append(out, ts.Implies(inside, printable))
+		}
+	}
+	return out
 }
 
 // show renders a value for Record output.
